@@ -95,3 +95,9 @@ def unmerged_fork_tail_duplicated(d, jobs, ctx):
     ends in a detach the source does not have (ctx["learned"]: the learned ASTs of all failing variants)"""
     learned = ctx.get("learned") or []
     return bool(learned) and all(_count(a, "detach") > _count(d, "detach") for a in learned)
+
+
+@predicate
+def loop_body_ends_in_fork(d):
+    """some loop's body ends with an AND/OR fork"""
+    return any(n[0] == "loop" and n[1][1] and n[1][1][-1][0] in ("and", "or") for n in _walk(d))
